@@ -1,7 +1,9 @@
 package rest
 
 import (
+	"errors"
 	"net/http"
+	"sync"
 	"time"
 
 	"github.com/gorilla/websocket"
@@ -38,6 +40,8 @@ type msgListenerV1 struct {
 	hub     *msghub.Hub                // Global message hub
 	c       chan event.MessageMetadata // Queue of messages from Receive()
 	mailbox string                     // Name of mailbox to monitor, "" == all mailboxes
+	done    chan struct{}              // Closed when this listener is closed.
+	once    sync.Once
 }
 
 // newMsgListenerV1 creates a listener and registers it.  Optional mailbox parameter will restrict
@@ -47,6 +51,7 @@ func newMsgListenerV1(hub *msghub.Hub, mailbox string) *msgListenerV1 {
 		hub:     hub,
 		c:       make(chan event.MessageMetadata, 100),
 		mailbox: mailbox,
+		done:    make(chan struct{}),
 	}
 	hub.AddListener(ml)
 	return ml
@@ -58,8 +63,7 @@ func (ml *msgListenerV1) Receive(msg event.MessageMetadata) error {
 		// Did not match the watched mailbox name.
 		return nil
 	}
-	ml.c <- msg
-	return nil
+	return ml.enqueue(msg)
 }
 
 // Delete handles a deleted message.
@@ -119,14 +123,14 @@ func (ml *msgListenerV1) WSWriter(conn *websocket.Conn) {
 	// Handle messages from hub until msgListener is closed
 	for {
 		select {
-		case msg, ok := <-ml.c:
+		case <-ml.done:
+			// msgListener closed, exit
+			_ = conn.SetWriteDeadline(time.Now().Add(writeWaitV1))
+			_ = conn.WriteMessage(websocket.CloseMessage, []byte{})
+			return
+		case msg := <-ml.c:
 			if err := conn.SetWriteDeadline(time.Now().Add(writeWaitV1)); err != nil {
 				slog.Warn().Err(err).Msg("Failed to set write deadline for msg")
-			}
-			if !ok {
-				// msgListener closed, exit
-				_ = conn.WriteMessage(websocket.CloseMessage, []byte{})
-				return
 			}
 			if conn.WriteJSON(metadataToHeader(&msg)) != nil {
 				// Write failed
@@ -148,12 +152,20 @@ func (ml *msgListenerV1) WSWriter(conn *websocket.Conn) {
 
 // Close removes the listener registration
 func (ml *msgListenerV1) Close() {
-	select {
-	case <-ml.c:
-		// Already closed
-	default:
+	ml.once.Do(func() {
+		close(ml.done)
 		ml.hub.RemoveListener(ml)
-		close(ml.c)
+	})
+}
+
+// enqueue hands a message to the websocket writer unless it has been closed, in which case the
+// error tells the hub to drop this listener.
+func (ml *msgListenerV1) enqueue(msg event.MessageMetadata) error {
+	select {
+	case ml.c <- msg:
+		return nil
+	case <-ml.done:
+		return errors.New("listener closed")
 	}
 }
 
